@@ -152,6 +152,7 @@ func check(args []string) {
 	repo := fs.String("repo", "/repo", "")
 	verif := fs.String("verif", "/verif", "")
 	dump := fs.String("dump", "", "directory for SMT files")
+	out := fs.String("out", "", "directory for evidence/ and replay/ (default: the verif directory)")
 	verbose := fs.Bool("v", false, "")
 	timeout := fs.Duration("timeout", 0, "per-query timeout (default 10s quick, 60s thorough)")
 	fs.Parse(args)
@@ -176,6 +177,6 @@ func check(args []string) {
 			to = 60 * time.Second
 		}
 	}
-	r := eng.RunCheck(prop, eng.CheckOptions{VerifDir: *verif, RepoDir: *repo, Tier: tier, Seed: seed, Timeout: to, DumpDir: *dump, Verbose: *verbose})
+	r := eng.RunCheck(prop, eng.CheckOptions{VerifDir: *verif, RepoDir: *repo, Tier: tier, Seed: seed, Timeout: to, DumpDir: *dump, Verbose: *verbose, OutDir: *out})
 	os.Exit(r.ExitCode)
 }
